@@ -225,7 +225,7 @@ def run(ctx):
                     break
                 d = d_outer
                 step = gen.gen_step(rng, info, d, docs)
-                if k % 7 == 3:
+                if k % 8 == 3:
                     # aimed: a two-node slice open on both sides, the gap in a complete wrapper below the top level (on this
                     # document, or on another one of this schema when this one has no sibling run with neighbours)
                     for d2 in [d] + rng.sample(docs, min(3, len(docs))):
